@@ -109,6 +109,19 @@ func parseTimestamp(lt lokiapi.LokiTime, def time.Time) (time.Time, error) {
 	}
 
 	if strings.Contains(value, ".") {
+		secs, frac, _ := strings.Cut(value, ".")
+		// Seconds with a fraction: parse digits of the fraction as is, float64 has
+		// not enough precision to keep nanoseconds of a current timestamp.
+		if s, err := strconv.ParseInt(secs, 10, 64); err == nil && frac != "" && strings.Trim(frac, "0123456789") == "" {
+			if len(frac) > 9 {
+				frac = frac[:9]
+			}
+			ns, _ := strconv.ParseInt(frac+strings.Repeat("0", 9-len(frac)), 10, 64)
+			if strings.HasPrefix(secs, "-") {
+				ns = -ns
+			}
+			return time.Unix(s, ns), nil
+		}
 		if t, err := strconv.ParseFloat(value, 64); err == nil {
 			s, ns := math.Modf(t)
 			ns = math.Round(ns*1000) / 1000
